@@ -6,14 +6,14 @@ sys.path.insert(0, os.path.dirname(os.path.abspath(__file__)))
 import vlib, mkmc
 
 
-def conform(geo, name, bound=2, limit=400, pct=0):
+def conform(geo, name, bound=2, limit=400, pct=0, scnfile=None):
     """-> dict(status: conforms|drift|n/a, sequences, states, detail)"""
-    mod = mkmc.make(name, geo)
+    mod = mkmc.make(name, geo, scnfile=scnfile)
     if not mod:
         return {"status": "n/a"}
-    ops = os.path.join(vlib.WORK, "ops-%s-%s-%d.ndjson" % (name, geo, os.getpid()))
-    out = os.path.join(vlib.WORK, "ops-%s-%s-%d.out" % (name, geo, os.getpid()))
-    vlib.harness(geo, ["conc", "scn=" + os.path.join(vlib.SPEC, "scenarios.json"), "name=" + name, "bound=%d" % bound,
+    ops = os.path.join(vlib.WORK, "ops-%s-%s-%d.ndjson" % (mkmc.modname(name), geo, os.getpid()))
+    out = os.path.join(vlib.WORK, "ops-%s-%s-%d.out" % (mkmc.modname(name), geo, os.getpid()))
+    vlib.harness(geo, ["conc", "scn=" + (scnfile or os.path.join(vlib.SPEC, "scenarios.json")), "name=" + name, "bound=%d" % bound,
                        "limit=%d" % limit, "pct=%d" % pct, "out=" + out, "opsout=" + ops])
     if not os.path.exists(ops):
         return {"status": "n/a"}
